@@ -161,7 +161,7 @@ var c10Weights = map[string]int{
 }
 
 // c10Avoid adds the guard of F-11 to the common rules: while it is open, reads are
-// generated with a buffer larger than the file so that no half-consumed stream is left.
+// generated with a buffer that takes the whole file so that no half-consumed stream is left.
 func c10Avoid() func(hist.Step, *hist.MRunner) string {
 	base := avoidFor("C10")
 	return func(s hist.Step, mr *hist.MRunner) string {
@@ -172,7 +172,9 @@ func c10Avoid() func(hist.Step, *hist.MRunner) string {
 			switch s.Op {
 			case "read", "readat", "seek":
 				if h := mr.Slots[s.Slot]; h != nil {
-					if s.Op != "read" || int64(s.N) <= h.Size() {
+					// a Read that takes every remaining byte drains the stream (even if it does
+					// not get to see its end): only reads that leave bytes behind are steered away
+					if s.Op != "read" || int64(s.N) < h.Size()-h.Pos || h.Pos > 0 {
 						return "F-11"
 					}
 				}
@@ -212,6 +214,18 @@ func TestC10(t *testing.T) {
 			}
 			g.Comps = []string{"p", "q", "r"}
 			live.S.Class("link-maze")
+		}
+		if len(steps) == 0 && rapid.IntRange(0, 4).Draw(t, "drained-handle") == 0 {
+			// a handle that has taken every byte of a content of whole records (without getting to
+			// see the end of the stream) stays open while the calls that follow need the drive
+			size := cfg.RecordSize * 512 * rapid.IntRange(1, 2).Draw(t, "records")
+			pro := []hist.Step{{Op: "create", Path: "/rz", Slot: 0}, {Op: "write", Slot: 0, Size: size, Dist: 1, Seed: 3}, {Op: "close", Slot: 0},
+				{Op: "open", Path: "/rz", Slot: 2}, {Op: "read", Slot: 2, N: size}, {Op: "mkdir", Path: "/after-drain", Perm: 0755}}
+			for _, st := range pro {
+				mr.Do(st)
+			}
+			steps = append(steps, pro...)
+			live.S.Class("drained-handle-stays-open")
 		}
 		for i := 0; i < n; i++ {
 			s := g.Draw(t, mr)
